@@ -23,7 +23,7 @@ T2MIN = {'curvature': 3, 'dfdt': 3, 'menger': 4, 'lmethod': 4, 'kneedle': 3}
 LAST = {}
 
 
-def spec(get_knee, pts, t1, t2):
+def spec(get_knee, pts, t1, t2, gate=None):
     """The documented recursion, iteratively; returns (sorted indices, max depth)."""
     smape_points = install.orig('linear_fit', 'smape_points')
     fit = install.orig('linear_fit', 'linear_fit_points')
@@ -36,6 +36,8 @@ def spec(get_knee, pts, t1, t2):
         if len(pt) <= t2:
             continue
         r = smape_points(pt, fit(pt))
+        if gate is not None:
+            gate(pt, r)
         if not (r >= t1):
             continue
         k = get_knee(pt)
@@ -49,7 +51,42 @@ def spec(get_knee, pts, t1, t2):
     return sorted(out), depth
 
 
+LD = np.longdouble
+
+
+def smape_model(pt):
+    """Independent long-double endpoint-line SMAPE of a segment; (value, absolute tolerance) or None when the
+    float64 evaluation is ill-conditioned (y touching 0, where a 1e-17 residue is amplified by the eps guard)."""
+    x = np.asarray(pt[:, 0], dtype=LD)
+    y = np.asarray(pt[:, 1], dtype=LD)
+    if len(x) < 3 or x[0] == x[-1]:
+        return None
+    ymax, ymin = float(np.max(np.abs(y))), float(np.min(y))
+    if not (ymin >= 1e-3 * ymax and ymax > 0) or not np.all(np.isfinite(pt)):
+        return None
+    m = (y[0] - y[-1]) / (x[0] - x[-1])
+    b = y[0] - m * x[0]
+    yh = x * m + b
+    v = float(np.mean(2 * np.abs(yh - y) / (np.abs(y) + np.abs(yh) + LD(1e-16))))
+    gaps = np.diff(np.asarray(pt[:, 0], dtype=float))
+    if np.min(gaps) <= 0:
+        return None
+    xr = float(np.max(np.abs(x))) / float(np.min(gaps))
+    return v, 1e-6 * v + 256 * float(np.finfo(float).eps) * xr * (ymax / ymin)
+
+
 def setup(ctx, mods):
+    def gate(pt, r):
+        mod = smape_model(pt)
+        if mod is None:
+            ctx.ood('gate-model', 'ill-conditioned')
+            return
+        v, tol = mod
+        ctx.mx('gate_err_over_tol', abs(float(r) - v) / (tol + 1e-300))
+        ctx.check(abs(float(r) - v) <= tol, 'gate-model', 'gate:smape-model',
+                  f'the straightness gate evaluated an endpoint-line SMAPE of {float(r)!r}; the definition gives {v!r} (tol {tol:.3g})',
+                  segment_head=np.asarray(pt)[:6], n=len(pt))
+
     def post(ctx, original, args, kwargs, result):
         names = ['get_knee', 'points', 't1', 't2', 'cost']
         a = {'t1': 0.001, 't2': 3, 'cost': mods['metrics'].Metrics.smape}
@@ -68,7 +105,7 @@ def setup(ctx, mods):
         ctx.check(okr, 'range', f'range:{det}.multi_knee',
                   f'multi-knee result is not a strictly increasing index array inside [{lo}, {n - 2}]: {res.tolist()[:40]}',
                   detector=det, t1=t1, t2=t2, n=n)
-        want, depth = spec(gk, pts, t1, t2)
+        want, depth = spec(gk, pts, t1, t2, gate)
         LAST['depth'] = depth
         LAST['count'] = len(want)
         ctx.check(res.tolist() == want if res.ndim == 1 else False, 'recursion', f'recursion:{det}.multi_knee',
